@@ -139,6 +139,7 @@ def run_session(bins, home, typ, fe, verb, sim, name="router", tag="s", wait=Tru
     simproc = None
     if typ in HTTPS_TYPES:
         sc.setdefault("key", API_KEY)
+        sc.setdefault("job_pend", 2)        # the commit job of PAN-OS is pending for two polls
         json.dump(sc, open(scen, "w"))
         simproc = subprocess.Popen([os.path.join(bins, "httpsim"), scen], stdin=subprocess.PIPE,
                                    stdout=subprocess.PIPE, text=True)
